@@ -2,13 +2,19 @@
    oracles of this property rest on, regenerated from /repo on every run, equal the reviewed ones:
      - group wiring (which output feeds which input, as OpenMDAO resolves it) of the canonical models of: -
      - unit contract (declared units of every input / output) of the classes in: geometry
-   An edit that re-wires a group or drops / changes a unit in these areas breaks the obligation; the oracles of the property
-   then look for the failing input. *)
+     - option defaults of the classes in: geometry
+   An edit that re-wires a group, drops / changes a unit or changes a default in these areas breaks the obligation; the oracles of
+   the property then look for the failing input. *)
 From Coq Require Import String List Bool.
-From OAS Require Import Wiring WiringReviewed IOUnits IOUnitsReviewed Tie_units_geometry.
+From OAS Require Import Wiring WiringReviewed IOUnits IOUnitsReviewed OptionDefaults OptionDefaultsReviewed Tie_units_geometry Tie_options_geometry.
 Import ListNotations.
 
 Theorem C14_unit_contract_of_geometry_is_the_reviewed_one :
   units_dir_geometry gen_io_units = units_dir_geometry reviewed_io_units /\ units_dir_geometry reviewed_io_units <> [].
 Proof. split; [exact units_geometry_reviewed | exact units_geometry_nonempty]. Qed.
 Print Assumptions C14_unit_contract_of_geometry_is_the_reviewed_one.
+
+Theorem C14_option_defaults_of_geometry_are_the_reviewed_ones :
+  options_dir_geometry gen_option_defaults = options_dir_geometry reviewed_option_defaults /\ options_dir_geometry reviewed_option_defaults <> [].
+Proof. split; [exact options_geometry_reviewed | exact options_geometry_nonempty]. Qed.
+Print Assumptions C14_option_defaults_of_geometry_are_the_reviewed_ones.
